@@ -477,7 +477,7 @@ pub fn aux(ctx: &GenCtx, rng: &mut Rng, _run: u64) -> Plan {
 /// chunks by run index.
 pub fn aux_enum(ctx: &GenCtx, rng: &mut Rng, run: u64) -> Option<Plan> {
     let hashes: Vec<HashId> = if ctx.quick { vec![HashId::M_Shake256_128, HashId::Sha256_192] } else { ALL_HASHES.to_vec() };
-    let h0s: Vec<u32> = if ctx.quick { vec![cheap_h()] } else if H2_KNOWN { vec![2, 5] } else { vec![5] };
+    let h0s: Vec<u32> = if H2_KNOWN { vec![2, 5] } else { vec![5] };
     let chunks = 16u64;
     let total = hashes.len() as u64 * h0s.len() as u64 * chunks;
     if run >= total {
@@ -535,7 +535,7 @@ pub fn aux_enum(ctx: &GenCtx, rng: &mut Rng, run: u64) -> Option<Plan> {
 }
 pub fn aux_enum_space(quick: bool) -> u64 {
     if quick {
-        2 * 16
+        2 * (if H2_KNOWN { 2 } else { 1 }) * 16
     } else {
         8 * (if H2_KNOWN { 2 } else { 1 }) * 16
     }
